@@ -251,6 +251,23 @@ def catalogue(tier):
     add(DOT_DOT, {"a": ["0.0", "0.1"], "b": ["0.0", "0.1"], "c": ["0"]})
     add(DOT_DOT, {"a": ["0.0", "0.1"], "b": ["0"], "c": ["0.0", "0.1"]})
     add(CART_DOT, {"a": ["0.0"], "b": ["0.0"], "c": ["0.0"]})
+    # systematic part: EVERY assignment of a small set of stream shapes to the ports of a dot product (parents shared
+    # by several ports, children on others, grand-children, a missing partner) -- seeded defect C02-1 needs two ports
+    # with the same parent tag and a third with its children
+    shapes = {"P": ["0"], "C": ["0.0", "0.1"], "C1": ["0.1"], "G": ["0.0.0", "0.0.1"]}
+    if tier == "thorough":
+        shapes["E"] = []
+        shapes["K"] = ["0.9", "0.10"]
+    names = sorted(shapes)
+    seen = {tuple(sorted((k, tuple(v)) for k, v in x["streams"].items())) + (tree_str(x["tree"]),) for x in c}
+    for tree, ports in ((DOT3, "abc"), (DOT2, "ab")):
+        for combo in itertools.product(names, repeat=len(ports)):
+            streams = {p: list(shapes[n]) for p, n in zip(ports, combo)}
+            key = tuple(sorted((k, tuple(v)) for k, v in streams.items())) + (tree_str(tree),)
+            if key in seen or sum(len(v) for v in streams.values()) > 6:
+                continue
+            seen.add(key)
+            add(tree, streams)
     if tier == "thorough":
         add(DOT2, {"a": ["0.0", "0.1", "0.2", "0.3"], "b": ["0.0", "0.1", "0.2"]})
         add(DOT2, {"a": ["0.0.0", "0.0.1", "0.1.0"], "b": ["0.0", "0.1"]})
@@ -288,6 +305,8 @@ def main(argv=None):
             cb[i] = 0 if args.tier == "quick" else 1
         elif total >= 5 and args.tier == "quick":
             cb[i] = 0
+        elif i >= 20 and args.tier == "quick":
+            cb[i] = 0  # systematic part: all arrival permutations (free choices), default driver/db schedule
     with Explorer(f"checks.{PROP}", cases, workers=args.workers, seed=runner.seed()) as exp:
         stats, completed, levels = exp.run(bound, time_cap=args.time_cap or (280 if args.tier == "quick" else 1500),
                                            case_bounds=cb)
